@@ -70,6 +70,12 @@ def run_shard(tier, seed, idx, n, res, tmp):
                 count_cells(exp, res)
                 for f in m.features:
                     res.see('feature', f)
+            for nsname, nd in exp['namespaces'].items():
+                have = got['namespaces'].get(nsname, {}).get('imports', {}).get('includes', [])
+                lost = [x for x in nd['imports']['_must_include'] if x not in have]
+                res.count('import_lists_compared')
+                if lost:
+                    diffs.append((('namespaces', nsname, 'imports', 'includes'), lost, have))
             seen = set()
             for path, e, g in diffs:
                 cell = irexpect.cell_of(path)
